@@ -241,8 +241,11 @@ pub fn gen_mvalue(r: &mut Rng, ty: Ty, cfg: &GenCfg) -> Ow {
         Ty::Bytes => {
             let n = r.below(200);
             let mut v = format!("{:04}", n).into_bytes();
-            let extra = match r.below(6) {
-                0 => r.range(30, 120) as usize,
+            let extra = match r.below(14) {
+                0 | 1 => r.range(30, 120) as usize,
+                // a value of half a page up to almost a page: it sits alone in a leaf of the value subtree, so that
+                // removing it deletes a whole leaf (branch collapse onto a sibling that may be a committed page)
+                2 => r.range(cfg.page_size as u64 / 2 - 20, cfg.page_size as u64 - 80) as usize,
                 _ => r.below(6) as usize,
             };
             v.extend(std::iter::repeat(b'.').take(extra));
@@ -590,6 +593,8 @@ macro_rules! per_crate {
                 pub seq: u64,
                 /// image index after which the file is known NOT cleanly closed (for crash-copy use)
                 pub last_event: String,
+                /// directed shape: (table, key, value sitting alone in a leaf of the key's committed value subtree)
+                pub planted: Vec<(usize, Ow, Ow)>,
             }
 
             impl<'a> Hist<'a> {
@@ -766,6 +771,46 @@ macro_rules! per_crate {
                         3 | 4 => r.range(6, 40),
                         _ => r.range(40, 160),
                     };
+                    // directed shape for value subtrees (multimap u64 -> bytes): PLANT a key whose value subtree is a
+                    // branch over exactly two leaves -- several small values (together more than half a page) and one
+                    // value of almost a page, first or last in value order -- and, in a LATER transaction, PLUCK the
+                    // large value alone: its leaf disappears, the branch collapses, and the untouched, already
+                    // committed sibling leaf becomes the subtree root (its stored checksum must be carried over)
+                    if restored.is_none() {
+                        if let Some(pos) = self.planted.iter().position(|(t, k, v)| {
+                            working.tables.get(t).and_then(|st| st.multi.get(k)).is_some_and(|s| s.contains(v))
+                        }) {
+                            if r.chance(1, 2) {
+                                let (t, k, v) = self.planted.remove(pos);
+                                let op = Op::MRem(k, v);
+                                let c = self.decls[t].combo;
+                                apply(&txn, c, &self.decls[t].name, &op).map_err(|e| format!("op {op:?}: {e}"))?;
+                                spec_apply(&mut working, t, true, &op);
+                                self.stats.op("m_pluck_planted");
+                            }
+                        } else if r.chance(1, 3) {
+                            if let Some(t) = (0..self.decls.len()).find(|t| COMBOS[self.decls[*t].combo].multi && COMBOS[self.decls[*t].combo].v == Ty::Bytes && COMBOS[self.decls[*t].combo].k == Ty::U64) {
+                                let c = self.decls[t].combo;
+                                let k = Ow::U64(0x5eed_0000 + r.below(1 << 16));
+                                let ps = self.page_size;
+                                let small_len = 40usize;
+                                let n_small = (ps * 3 / 5) / (small_len + 8) + 1;
+                                let first = r.chance(1, 2);
+                                let mut vals: Vec<Ow> = (0..n_small).map(|i| { let mut v = format!("{:04}", 1000 + i).into_bytes(); v.resize(small_len, b'.'); Ow::Bytes(v) }).collect();
+                                let mut big = (if first { "0000" } else { "9999" }).to_string().into_bytes();
+                                big.resize(ps - 100, b'#');
+                                vals.push(Ow::Bytes(big.clone()));
+                                for v in vals {
+                                    let op = Op::MIns(k.clone(), v);
+                                    apply(&txn, c, &self.decls[t].name, &op).map_err(|e| format!("op {op:?}: {e}"))?;
+                                    spec_apply(&mut working, t, true, &op);
+                                }
+                                working.tables.entry(t).or_default();
+                                self.planted.push((t, k, Ow::Bytes(big)));
+                                self.stats.op("m_plant");
+                            }
+                        }
+                    }
                     for _ in 0..nops {
                         let t = r.below(self.decls.len() as u64) as usize;
                         let op = self.gen_op(r, t, &working);
@@ -777,6 +822,24 @@ macro_rules! per_crate {
                             working.tables.entry(t).or_default();
                         }
                         *self.stats.combos.entry(c).or_insert(0) += 1;
+                        // run removal: the values following the removed one, in value order, go too -- whole leaves of a
+                        // value subtree are emptied in one transaction
+                        if let Op::MRem(k, v) = &op {
+                            if r.chance(1, 3) {
+                                let succ: Vec<Ow> = working
+                                    .tables
+                                    .get(&t)
+                                    .and_then(|st| st.multi.get(k))
+                                    .map(|s| s.iter().filter(|x| *x > v).take(r.range(2, 14) as usize).cloned().collect())
+                                    .unwrap_or_default();
+                                for x in succ {
+                                    let op2 = Op::MRem(k.clone(), x);
+                                    apply(&txn, c, &self.decls[t].name, &op2).map_err(|e| format!("op {op2:?}: {e}"))?;
+                                    spec_apply(&mut working, t, true, &op2);
+                                }
+                                self.stats.op("m_remove_run");
+                            }
+                        }
                         // burst: many values for one multimap key, so the value set leaves the inline form
                         if let Op::MIns(k, _) = &op {
                             if r.chance(1, 6) {
@@ -958,6 +1021,7 @@ pub fn run_history_with(
                 sps: vec![],
                 seq: 0,
                 last_event: String::new(),
+                planted: vec![],
             };
             let res = rv_harness::catch(|| hist.run(r, $cur));
             match res {
